@@ -345,6 +345,8 @@ def r4(ctx):
                         shapes[nm] = shapes[shp.base.name]
                 elif isinstance(t, tm.Rep):
                     shapes[nm] = [tm.length(t)]
+                elif isinstance(t, tm.Comp) and not t.conds and t.kind == "list" and not (isinstance(tm.length(t), App) and tm.length(t).fn == "len"):
+                    shapes[nm] = [tm.length(t)]          # [v for _ in range(n)]: a list of n entries, like [v] * n
                 elif isinstance(t, Poly) and any(isinstance(a, App) and a.fn == "numpy.zeros" for a in t.atoms()):
                     z = [a for a in t.atoms() if isinstance(a, App) and a.fn == "numpy.zeros"][0]
                     shp = z.args[0] if z.args else z.kwarg("shape")
